@@ -1,9 +1,39 @@
-FIX_COMMITS = ['ee63c4e', '8e72bfe', 'fac3c39', '803947b', '012bab8', 'dbf4700', '19f97fb', '925775e', 'cbd12ec', 'f843f54', '7a5e3b3', '35d5997', 'bbada35', '867f25c', '1e6d046', '9e14f80', '7c4e0e1', 'ac89fd3']
+FIX_COMMITS = ['ee63c4e', '8e72bfe', 'fac3c39', '803947b', '012bab8', 'dbf4700', '19f97fb', '925775e', 'cbd12ec', 'f843f54', '7a5e3b3', '35d5997', 'bbada35', '867f25c', '1e6d046', '9e14f80', '7c4e0e1', 'ac89fd3', '40778ed', 'f2148c8', '76eaf85', '9bcb695']
 TODO = 'check not built yet in this revision (work in progress; see DESIGN.md section 7 for the planned solver-based check)'
 NOT_APPLICABLE = {('C%02d' % i): TODO for i in range(1, 21)}
 R_NOTE = ('R-model: floats are mathematical reals, float literals are the decimal rationals written in the source, '
           'transcendental functions are uninterpreted with sound axiom instances; IEEE rounding is outside the claim. ')
 CHECKS = {
+    'C08': {
+        'text': 'Bounded symbolic execution of the real geodepy/angles.py in an exact IEEE-754 model (F-model) + SMT (QF_LIA): every float is an exact '
+                'double (integer mantissa, concrete binade; each rounding a linear integer constraint), f-strings / slicing / float(text) are '
+                'decimal-text objects with digit variables. Per chunk of [2^-20, 720) deg the solver decides for EVERY double of the chunk '
+                '(dec2hp, dec2dms, dec2ddm, dec2gon, gon2dec) or every 13-decimal HP value of the chunk (hp2dec, HPAngle): valid input never '
+                'raises, invalid HP always raises, the result denotes the same angle within 2.5e-9 arc-seconds with the same sign, produced HP '
+                'values read as valid HP. DMS/DDM object methods on symbolic integer degrees/minutes and a symbolic double seconds field. All '
+                '14 wrapper functions and all object methods of the five classes are proved equal to the composition of the leaf conversions '
+                '(leaf calls as uninterpreted summaries). Lemmas (13-decimal reading of the double = the decimal text, below 512 deg) are '
+                'themselves solver queries on the same path.',
+        'design_ref': 'DESIGN.md sections 7 (C08) and 12',
+        'note': 'quick: chunks of [0.25, 720) (all below 8 deg, every fourth 4-degree chunk above, rotating with VERIF_SEED) and whole-arc-second '
+                'HP inputs; thorough: all 201 chunks from 2^-20 deg and all 13-decimal HP inputs. radians()/degrees() (libm), the numpy-vectorised '
+                'variants, NaN/inf/-0.0 and chains as such are outside (chains follow from the per-function claims: 4 x 2.5e-9 = 1e-8 arc-seconds). '
+                'Known findings: HP values of magnitude 512..720 (double spacing above 1e-13).',
+        'technique': 'symbolic execution of the real Python source in an exact IEEE-double model + SMT (z3/cvc5 QF_LIA portfolio), lemma queries, '
+                     'witness replay on the un-instrumented module with exact rational arithmetic',
+    },
+    'C12': {
+        'text': 'Bounded symbolic execution + SMT (R-model) of the operator methods of DECAngle, HPAngle, GONAngle, DMSAngle, DDMAngle (real source) on '
+                'operands with symbolic fields, for every ordered pair of classes and every operator the classes define (+, -, unary -, abs, * and / '
+                'by a number, reflected forms, %, ==, !=, <, >, round): the result has the class of the left operand and is exactly the functional '
+                'conversion of (left.dec() op right.dec()) into that class; comparisons equal the comparison of the decimal-degree values on every '
+                'path; neg/abs keep the sign conventions incl. angles in (-1, 0) deg; rounding moves the value by at most half a unit.',
+        'design_ref': 'DESIGN.md sections 7 (C12) and 12',
+        'note': 'One operator application per query; expressions of any depth follow by structural induction while magnitudes stay below 720 deg. '
+                'dec2hp / hp2dec / HPAngle validation are summarised here: that HP results are constructible and denote the right angle on every '
+                'double is C08 (F-model). IEEE rounding of the decimal-degree arithmetic itself is outside (R-model).',
+        'technique': 'symbolic execution of the real Python source with callee summaries + SMT (z3 LIRA/EUF), witness replay',
+    },
     'C18': {
         'text': 'geodepy.gnss (real source, pandas stubbed, in-memory files): set_creation_time runs with the clock a symbolic instant and its '
                 'formatted fields as decimal-text objects whose lengths are integer terms - the solver decides the result is always YY:DDD:SSSSS; '
